@@ -42,7 +42,11 @@ PRIORITY = ["MD5", "SHA-1", "SHA-256", "SHA-512"]
 
 m21 = M.model("2.1")
 SCO_TYPES = m21.types_of_class("SCO")
-CUSTOM_CONTRIB = {"x-stixmon-sensor": ["address", "port", "ratio", "seen"], "x-stixmon-anon": []}
+CUSTOM_CONTRIB = {"x-stixmon-sensor": ["address", "port", "ratio", "seen"], "x-stixmon-anon": [], "x-stixmon-probe": ["address", "extensions"]}
+PROBE_EXT = "extension-definition--5b3b0b3c-0a4e-4f0f-9c57-0d7f7a1b2c02"
+UNREG_EXT = "extension-definition--5b3b0b3c-0a4e-4f0f-9c57-0d7f7a1b2cfe"
+# member names whose order differs between code points and UTF-16 code units (RFC 8785 sorts by the latter), and other hostile ones
+HOSTILE_NAMES = ["\U0001f600", "\ue000", "\uffff", "\U00010000", "\ufb33", "\u20ac", "\u00f6", "\r", "1", "\u0080", "a\U0001f600", "a\uffff", "A", "a", "", "10", "9", "\U0010ffff"]
 CUSTOM_TS = {"x-stixmon-sensor": {"seen": {"k": "ts", "precision": "any", "constraint": "exact"}}}
 
 
@@ -80,6 +84,10 @@ def norm_value(kind, v):
 
 def expected_id(o):
     t = o["type"]
+    if t == "x-stixmon-probe":
+        # a type declared with extension_name=: the extension which declares it is part of every object of the type, given or not
+        o = dict(o, extensions=dict(o.get("extensions", {})))
+        o["extensions"].setdefault(PROBE_EXT, {"extension_type": "new-sco"})
     by = m21.types[t]["by_name"] if t in m21.types else CUSTOM_TS.get(t, {})
     data = {}
     for p in contrib_list(t):
@@ -123,6 +131,8 @@ def gen_sco(rng, t, i):
     g = ObjGen(rng, "2.1", hostile=True, ts_max_digits=6, huge_ints=(i % 3 == 0), allow_empty_str=(i % 5 == 0))
     if t == "x-stixmon-sensor":
         o = gcustom.sensor21(g, with_id=False)
+    elif t == "x-stixmon-probe":
+        o = gcustom.probe21(g)
     elif t == "x-stixmon-anon":
         o = {"type": t, "spec_version": "2.1"}
         if rng.random() < 0.7:
@@ -132,10 +142,18 @@ def gen_sco(rng, t, i):
         if i % 4 == 0 and t == "file":
             o = gcustom.file_with_ext(g)
         o.pop("id", None)
+        if t in ("file", "network-traffic") and i % 3 == 1:
+            # an extension the library knows nothing about contributes as it is: hostile member names, nesting, numbers
+            names = rng.sample(HOSTILE_NAMES, rng.randrange(2, 7))
+            body = {"extension_type": "property-extension"}
+            for n in names:
+                body[n] = rng.choice([1, "v", [1, 2, "x"], {"\uffff": 1, "\U0001f600": 2, "b": [1.5, {"k": "v"}]}, 1.5, True, 10 ** 20, "2020-01-01T00:00:00Z"])
+            o["extensions"] = dict(o.get("extensions", {}))
+            o["extensions"][UNREG_EXT] = body
     return o, g
 
 
-ALL_TYPES = SCO_TYPES + ["x-stixmon-sensor", "x-stixmon-anon"]
+ALL_TYPES = SCO_TYPES + ["x-stixmon-sensor", "x-stixmon-anon", "x-stixmon-probe"]
 
 
 def wl_ids(ctx, rng, i):
@@ -180,6 +198,39 @@ def wl_ids(ctx, rng, i):
             ctx.count("native_constructions")
         except Exception as e:
             ctx.skip("native construction refused (%s)" % type(e).__name__)
+    if UNREG_EXT in o.get("extensions", {}):
+        # the same values with tuples where JSON has arrays (they serialise alike)
+        def tup(v):
+            if isinstance(v, list):
+                return tuple(tup(x) for x in v)
+            if isinstance(v, dict):
+                return {k: tup(x) for k, x in v.items()}
+            return v
+        ctx.ev()
+        try:
+            ot = dict(o, extensions=dict(o["extensions"]))
+            ot["extensions"][UNREG_EXT] = tup(o["extensions"][UNREG_EXT])
+            ids["constructor-tuples"] = construct(ot, "constructor", rng)["id"]
+            ctx.count("unregistered_extension_contributions")
+        except Exception as e:
+            ctx.skip("tuple presentation refused (%s)" % type(e).__name__)
+    if "hashes" in o and "hashes" in contrib_list(t) and i % 4 == 2:
+        # two spellings of one algorithm with different values: refused, or at least not a matter of dictionary order
+        a = next(iter(o["hashes"]))
+        alias = {"MD5": "md5", "SHA-1": "SHA1", "SHA-256": "sha256", "SHA-512": "SHA512"}.get(a)
+        if alias:
+            other = ("0" if o["hashes"][a][0] != "0" else "1") + o["hashes"][a][1:]
+            got2 = []
+            for pair in ([(a, o["hashes"][a]), (alias, other)], [(alias, other), (a, o["hashes"][a])]):
+                try:
+                    got2.append(construct(dict(o, hashes=dict(pair)), "parse", rng)["id"])
+                except Exception:
+                    got2.append(None)
+            ctx.ev()
+            ctx.count("duplicate_algorithm_spellings")
+            if got2[0] != got2[1]:
+                ctx.violation("dictionary-order-changes-id:two-spellings-of-one-algorithm", "hashes with %s and %s: the id depends on their order (%s / %s)" % (a, alias, got2[0], got2[1]),
+                              {"input": o, "spellings": [a, alias], "ids": got2})
     got = ids["parse"]
     ctx.see("types", t)
     if exp is not None:
@@ -188,7 +239,8 @@ def wl_ids(ctx, rng, i):
         ctx.see("types with contributing values", t)
         for route, gid in ids.items():
             if gid != exp:
-                key = "id-not-specification-exact"
+                key = "id-not-specification-exact" + (":tuple-values" if route == "constructor-tuples" and ids.get("constructor") == exp else "") + (
+                    ":type-declared-with-extension_name" if t == "x-stixmon-probe" else "")
                 if "hashes" in o and "hashes" in contrib_list(t):
                     # which hash would reproduce the library's id?
                     for a, hv in o["hashes"].items():
